@@ -85,7 +85,7 @@ func (c c13case) key() string { return fmt.Sprintf("%s/T=%s", c.class(), c.T()) 
 // bound is the latest acceptable return: T + max(300 ms, T).
 func (c c13case) bound() time.Duration {
 	a := c13FloorMS * time.Millisecond
-	if strings.HasPrefix(c.Pattern, "hangup:") {
+	if strings.HasPrefix(c.Pattern, "hangup:") || strings.HasPrefix(c.Pattern, "slowwrite:") {
 		// This peer exists to expose a second timeout budget after a stall
 		// d < T: the call is then back by T+d < 2T, which the T-proportional
 		// part of the allowance would always hide.  Flat 300 ms here (the
@@ -128,6 +128,9 @@ func (c c13case) holdDelay() time.Duration {
 	if c.Pattern == "blockwrite:5T" || c.Pattern == "stallconnect:5T" {
 		return 5 * c.T()
 	}
+	if c.Pattern == "slowwrite:0.8T" { // the write completes before T, then the peer is silent
+		return c.T() * 4 / 5
+	}
 	return 0
 }
 
@@ -167,6 +170,9 @@ var c13picked = []struct {
 	{"adapter", "oneway", "afterstalledwrite", []int{20, 250}, []int{1, 5, 20, 50, 100, 250, 500, 1000}},
 	{"adapter", "request", "afterstalledflush", []int{50}, []int{1, 5, 20, 50, 100, 250, 500, 1000}},
 	{"adapter", "oneway", "afterstalledflush", nil, []int{1, 5, 20, 50, 100, 250, 500, 1000}},
+	{"adapter", "request", "slowwrite:0.8T", []int{500, 1000}, []int{400, 500, 750, 1000, 1500}},
+	{"http", "request", "neverwithlongcall", []int{50, 250}, []int{5, 20, 50, 100, 250, 500}},
+	{"http", "oneway", "neverwithlongcall", []int{100}, []int{5, 20, 50, 100, 250, 500}},
 	{"adapter", "request", "latehandoff", []int{20, 100}, []int{2, 5, 20, 50, 100, 250, 500}},
 	{"nats", "request", "closedpending", []int{100, 400}, []int{20, 50, 100, 250, 400, 1000}},
 	{"nats", "request", "brokerlost", []int{100, 400}, []int{20, 50, 100, 250, 400, 1000}},
@@ -341,7 +347,7 @@ func c13cases(rng *rand.Rand, thorough bool) (main, sub, controls []c13case) {
 	// cases that cost 10 s per attempt when they fail run in the side lane
 	keep := main[:0]
 	for _, c := range main {
-		if c.Pattern == "stalledconn" || c.Pattern == "closedpending" || c.Pattern == "brokerlost" || strings.HasPrefix(c.Pattern, "hangup:") {
+		if c.Pattern == "stalledconn" || c.Pattern == "closedpending" || c.Pattern == "brokerlost" || strings.HasPrefix(c.Pattern, "hangup:") || strings.HasPrefix(c.Pattern, "slowwrite:") {
 			sub = append(sub, c)
 		} else {
 			keep = append(keep, c)
@@ -388,7 +394,7 @@ func runC13(tier string, args []string) int {
 		os.Setenv("VERIF_OUT", ev.ScratchDir()) // a replay never overwrites the committed evidence
 	}
 	run := ev.New("C13", tier, "exploration")
-	run.Rule("case = (transport, timeout T, peer stall pattern, Request|Oneway); adapter over a scripted TTransport (silent, response late by T+50ms / 2T / 2T+400ms, Write blocked for 5T or for good, Flush blocked with and without honouring ctx, underlying Open() stalled for 5T / for good while the call is issued), NATS on an embedded broker (subscriber that never replies, or replies late, or the client-broker TCP connection black-holed by a proxy after a healthy control request), or PublishRequest refused by a 4 KiB max_payload broker followed by a request reusing the FContext), a second call issued while the send of an earlier call on the same transport is still stalled, the transport closed / the broker connection cut T/4 into a pending call, the inbound reader held between registry lookup and delivery of call A's answer while A times out and a fresh call B (silent peer) is issued from the same goroutine (B must time out, never see a response), N concurrent callers x K short-timeout requests on one transport against a peer answering each T+3ms late (slowest call of the burst is what is timed), HTTP against httptest (handler answering late, never, stalling the body, or stalling d<T then closing the connection unanswered and staying silent on any further connection - bound T+300ms flat there; http.Client without and with a Timeout of its own above / below T); each case attempted 3 times on fresh transports, minimum elapsed compared with T+max(300ms,T); distinct = (transport, op, pattern, T)")
+	run.Rule("case = (transport, timeout T, peer stall pattern, Request|Oneway); adapter over a scripted TTransport (silent, response late by T+50ms / 2T / 2T+400ms, Write blocked for 5T or for good, Flush blocked with and without honouring ctx, underlying Open() stalled for 5T / for good while the call is issued), NATS on an embedded broker (subscriber that never replies, or replies late, or the client-broker TCP connection black-holed by a proxy after a healthy control request), or PublishRequest refused by a 4 KiB max_payload broker followed by a request reusing the FContext), a second call issued while the send of an earlier call on the same transport is still stalled, the transport closed / the broker connection cut T/4 into a pending call, the inbound reader held between registry lookup and delivery of call A's answer while A times out and a fresh call B (silent peer) is issued from the same goroutine (B must time out, never see a response), a write that completes after 0.8T followed by silence (bound T+300ms flat), an HTTP call next to a concurrent call with a much longer timeout on the same transport (ordered through the request-header callback), N concurrent callers x K short-timeout requests on one transport against a peer answering each T+3ms late (slowest call of the burst is what is timed), HTTP against httptest (handler answering late, never, stalling the body, or stalling d<T then closing the connection unanswered and staying silent on any further connection - bound T+300ms flat there; http.Client without and with a Timeout of its own above / below T); each case attempted 3 times on fresh transports, minimum elapsed compared with T+max(300ms,T); distinct = (transport, op, pattern, T)")
 	run.Assume("monotonic clock of the Go runtime; a delay present in all 3 attempts of a case is attributed to the code, not to scheduling")
 	run.Assume("rig.ScriptTransport, the embedded nats-server and net/http/httptest behave as scripted")
 	run.Assume("goroutine ids parsed from runtime.Stack identify the calling goroutine in the full dump")
@@ -570,7 +576,11 @@ func runCase(env *c13env, c c13case, body func() []byte) caseResult {
 				a = attemptNats(env, c, body())
 			}
 		case "http":
-			a = attemptHTTP(c, body())
+			if c.Pattern == "neverwithlongcall" {
+				a = attemptHTTPWithLongCall(c, body())
+			} else {
+				a = attemptHTTP(c, body())
+			}
 		}
 		a.N = i + 1
 		res.attempts = append(res.attempts, a)
